@@ -11,7 +11,7 @@ T: (i) one trace per call of the real routing_tree_to_tables (trees from the rea
 import copy
 import random
 import struct
-from collections import OrderedDict
+from collections import OrderedDict, defaultdict
 
 import pkg_resources
 
@@ -78,8 +78,9 @@ def rand_key(rng):
     return rng.choice((0, 1, 0xffffffff, 0x80000000, 0xffff, 0x10000)), rng.choice((0, 0xffffffff, 0xffff0000, 0x8000ffff))
 
 
-def grow_tree(rng, w, h, root, nnodes, p_leaf=0.5, p_none=0.2, p_link_leaf=0.1):
-    """a random RoutingTree on the w x h torus visiting every chip at most once"""
+def grow_tree(rng, w, h, root, nnodes, p_leaf=0.5, p_none=0.2, p_link_leaf=0.1, p_dup=0.0):
+    """a random RoutingTree on the w x h torus visiting every chip at most once; with p_dup a leaf repeats the route
+    of an earlier leaf of its node (two vertices behind one route, e.g. through one route endpoint)"""
     rt = RoutingTree(root, [])
     by_chip = {root: rt}
     for _ in range(nnodes - 1):
@@ -103,7 +104,10 @@ def grow_tree(rng, w, h, root, nnodes, p_leaf=0.5, p_none=0.2, p_link_leaf=0.1):
                 r = rng.random()
                 n += 1
                 used = set(int(q) for q, _ in node.children if q is not None)
-                if r < p_none:
+                leaf_routes = [q for q, ch in node.children if q is not None and not isinstance(ch, RoutingTree)]
+                if leaf_routes and rng.random() < p_dup:
+                    node.children.append((rng.choice(leaf_routes), "dup%d" % n))
+                elif r < p_none:
                     node.children.append((None, "none%d" % n))
                 elif r < p_none + p_link_leaf:
                     free = [d for d in range(6) if d not in used]
@@ -217,11 +221,14 @@ def hand_tree_cases(chk, rng):
         yield tables_trace(routes, nk, "fixed: " + label)
     for i in range(chk.pick(1500, 20000)):
         w, h = rng.choice(((2, 2), (3, 3), (3, 1), (1, 4), (5, 4), (8, 8)))
-        a = grow_tree(rng, w, h, (rng.randrange(w), rng.randrange(h)), rng.choice((1, 2, 3, 5, 9)))
-        kind = rng.choice(("copy", "feeder", "more", "less", "other", "unrelated", "single", "feeder+more"))
+        a = grow_tree(rng, w, h, (rng.randrange(w), rng.randrange(h)), rng.choice((1, 2, 3, 5, 9)),
+                      p_dup=rng.choice((0, 0, 0.3)))
+        kind = rng.choice(("copy", "feeder", "more", "less", "other", "unrelated", "single", "feeder+more", "same-object"))
         trees = [a]
         if kind == "copy":
             trees.append(copy_tree(a))
+        elif kind == "same-object":
+            trees.append(a)                                     # one RoutingTree object routed under two nets
         elif kind in ("feeder", "feeder+more"):
             f = feeder(rng, w, h, a)
             if f is not None:
@@ -246,11 +253,34 @@ def hand_tree_cases(chk, rng):
             keys[1] = rng.choice(((km[0], km[1] ^ (1 << rng.randrange(32))), (km[0] ^ (1 << rng.randrange(32)), km[1])))
         order = list(range(len(trees)))
         rng.shuffle(order)
-        routes, nk = OrderedDict(), {}
+        shape = rng.choice(("plain", "plain", "ghost", "lists", "dict", "ghost+dict"))
+        routes = dict() if "dict" in shape else OrderedDict()
         for j in order:
             routes["n%d" % j] = trees[j]
-            nk["n%d" % j] = keys[j]
-        yield tables_trace(routes, nk, "hand %s order=%s %dx%d" % (kind, order, w, h))
+        # the keys' dictionary is built in an order of its own; it may name nets that have no tree ("ghost": nets
+        # that are routed elsewhere / not at all) and give key and mask as a list
+        korder = list(range(len(trees)))
+        rng.shuffle(korder)
+        nk = {}
+        for j in korder:
+            nk["n%d" % j] = list(keys[j]) if shape == "lists" else keys[j]
+            if "ghost" in shape and rng.random() < 0.7:
+                nk["ghost%d" % j] = rng.choice((km, rand_key(rng)))
+        label = "hand %s order=%s keys=%s %dx%d" % (kind, order, shape, w, h)
+        yield tables_trace(routes, nk, label)
+        # histories: the caller's objects are converted again after being changed in place (a tree grows or loses
+        # an exit, a net gets another key, a net is dropped from the routes but not from the keys)
+        if i % 6 == 0:
+            for step in range(rng.choice((1, 1, 2))):
+                how = rng.choice(("more", "less", "other", "rekey", "drop", "same"))
+                name = rng.choice(sorted(routes))
+                if how in ("more", "less", "other"):
+                    how = "tree " + perturb(rng, routes[name], how)
+                elif how == "rekey":
+                    nk[name] = rng.choice((km, rand_key(rng), (km[0], km[1] ^ (1 << rng.randrange(32)))))
+                elif how == "drop" and len(routes) > 1:
+                    del routes[name]
+                yield tables_trace(routes, nk, label + " again(%d) after in-place change: %s of %s" % (step, how, name))
 
 
 def router_tree_cases(chk, rng):
@@ -402,41 +432,94 @@ class Session(object):
         self.ev.extend(log_events(self.sim, self.sim.log[n0:], mode))
         return outcome, res
 
+    def _elsewhere(self, xy, app):
+        """another chip and application of the session: an enclosing context block that the call's own arguments
+        must override"""
+        others = [c for c in sorted(self.sim.chips) if c != xy] or [xy]
+        return others[(xy[0] + xy[1] + app) % len(others)], (app + 7) % 256
+
     def load_entries(self, xy, app, entries, via_context=False):
-        self.ops.append("load_entries %s app=%d n=%d" % (xy, app, len(entries)))
+        """via_context: False = all arguments explicit; True = chip and application from a context block;
+        "override" = explicit arguments inside a block naming another chip and application; "nested" = application
+        from an outer block, chip from an inner one"""
+        self.ops.append("load_entries %s app=%d n=%d %s ctx=%s" % (xy, app, len(entries), type(entries).__name__,
+                                                                   via_context))
         self.ev.append(["load", app, [[xy[0], xy[1], enc_given(entries)]], "load_routing_table_entries"])
-        if via_context:
+        if via_context is True:
             def f():
                 with self.mc(x=xy[0], y=xy[1], app_id=app):
                     self.mc.load_routing_table_entries(entries)
+        elif via_context == "override":
+            (ox, oy), oapp = self._elsewhere(xy, app)
+
+            def f():
+                with self.mc(x=ox, y=oy, app_id=oapp):
+                    self.mc.load_routing_table_entries(entries, x=xy[0], y=xy[1], app_id=app)
+        elif via_context == "nested":
+            (ox, oy), oapp = self._elsewhere(xy, app)
+
+            def f():
+                with self.mc(app_id=app, x=ox, y=oy):
+                    with self.mc(x=xy[0], y=xy[1]):
+                        self.mc.load_routing_table_entries(entries)
         else:
             f = lambda: self.mc.load_routing_table_entries(entries, x=xy[0], y=xy[1], app_id=app)
         outcome, _ = self._call("load", f)
         self.ev.append(["ret", outcome, self._contents([xy])])
         return outcome
 
-    def load_tables(self, tables, app):
-        self.ops.append("load_tables %s app=%d" % ([(xy, len(t)) for xy, t in tables.items()], app))
+    def load_tables(self, tables, app, via_context=False):
+        """via_context: False = application as positional argument; "keyword"; True = from a context block (which
+        also names a chip: the tables' own chips must win)"""
+        self.ops.append("load_tables %s app=%d %s ctx=%s" % ([(xy, len(t)) for xy, t in tables.items()], app,
+                                                             type(tables).__name__, via_context))
         self.ev.append(["load", app, [[xy[0], xy[1], enc_given(t)] for xy, t in tables.items()], "load_routing_tables"])
-        outcome, _ = self._call("load", lambda: self.mc.load_routing_tables(tables, app))
-        self.ev.append(["ret", outcome, self._contents(list(tables))])
+        chips = list(tables)
+        if via_context is True:
+            (ox, oy), _ = self._elsewhere(chips[0] if chips else (0, 0), app)
+
+            def f():
+                with self.mc(app_id=app, x=ox, y=oy):
+                    self.mc.load_routing_tables(tables)
+        elif via_context == "keyword":
+            f = lambda: self.mc.load_routing_tables(routing_tables=tables, app_id=app)
+        else:
+            f = lambda: self.mc.load_routing_tables(tables, app)
+        outcome, _ = self._call("load", f)
+        self.ev.append(["ret", outcome, self._contents(chips)])
         return outcome
 
-    def get(self, xy):
-        self.ops.append("get %s" % (xy,))
+    def get(self, xy, via_context=False):
+        self.ops.append("get %s ctx=%s" % (xy, via_context))
         self.ev.append(["get", xy[0], xy[1]])
-        outcome, res = self._call("get", lambda: self.mc.get_routing_table_entries(xy[0], xy[1]))
+        if via_context:
+            def f():
+                with self.mc(x=xy[0], y=xy[1]):
+                    return self.mc.get_routing_table_entries()
+        else:
+            f = lambda: self.mc.get_routing_table_entries(xy[0], xy[1])
+        outcome, res = self._call("get", f)
         items = []
-        for i, it in enumerate(res or []):
-            if it is not None:
-                e, app, core = it
-                items.append([i] + halves(e.key) + halves(e.mask) + [sorted(int(r) for r in e.route), int(app), int(core)])
-        self.ev.append(["got", outcome, len(res) if res is not None else -1, items])
+        try:
+            for i, it in enumerate(res or []):
+                if it is not None:
+                    e, app, core = it
+                    items.append([i] + halves(e.key) + halves(e.mask) + [sorted(int(r) for r in e.route), int(app), int(core)])
+            total = len(res) if res is not None else -1
+        except Exception as ex:           # what came back is not a list of (entry, app, core) / None
+            outcome, total, items = "unreadable result: " + type(ex).__name__, -1, []
+        self.ev.append(["got", outcome, total, items])
 
-    def clear(self, xy, app):
-        self.ops.append("clear %s app=%d" % (xy, app))
+    def clear(self, xy, app, via_context=False):
+        self.ops.append("clear %s app=%d ctx=%s" % (xy, app, via_context))
         self.ev.append(["clear", xy[0], xy[1], app])
-        outcome, _ = self._call("clear", lambda: self.mc.clear_routing_table_entries(xy[0], xy[1], app))
+        if via_context:
+            def f():
+                with self.mc(x=xy[0], y=xy[1], app_id=app):
+                    self.mc.clear_routing_table_entries()
+        else:
+            f = lambda: self.mc.clear_routing_table_entries(xy[0], xy[1], app)
+        outcome, _ = self._call("clear", f)
         self.ev.append(["cleared", outcome])
 
     def finish(self):
@@ -556,22 +639,70 @@ def gen_session(chk, rng, idx, big=False):
         if r < 0.4:
             return rng.randint(30, 200) if buf >= 64 else rng.randint(20, 64)
         return rng.choice((1, 1, 2, 3, 5, 8, 16, 17, 24, 33))
-    for _ in range(rng.randint(2, 7) if not big else rng.randint(1, 3)):
+    # one list object the caller keeps for the whole session: loaded, changed in place, loaded again (to the same or
+    # another chip); every third session has such a caller
+    kept = rand_entries(rng, rng.choice((1, 2, 3, 8, 17))) if idx % 3 == 1 else None
+
+    def change_kept():
+        how = rng.choice(("same", "replace", "replace", "append", "delete", "reverse", "reroute"))
+        if how == "replace" and kept:
+            kept[rng.randrange(len(kept))] = rand_entries(rng, 1)[0]
+        elif how == "append":
+            kept.extend(rand_entries(rng, rng.choice((1, 1, 2))))
+        elif how == "delete" and len(kept) > 1:
+            del kept[rng.randrange(len(kept))]
+        elif how == "reverse":
+            kept.reverse()
+        elif how == "reroute" and kept:
+            j = rng.randrange(len(kept))
+            kept[j] = RoutingTableEntry(rand_routes(rng), kept[j].key, kept[j].mask)
+        return how
+
+    def with_repeats(entries):
+        """a table in which an entry object occurs twice and a key/mask occurs with two routes (all are "given
+        entries": the router holds them all, in order)"""
+        if len(entries) >= 2 and rng.random() < 0.15:
+            j = rng.randrange(len(entries))
+            entries[rng.randrange(len(entries))] = entries[j]
+            e = entries[rng.randrange(len(entries))]
+            entries[rng.randrange(len(entries))] = RoutingTableEntry(rand_routes(rng), e.key, e.mask)
+        return entries
+    ctx_user = rng.random() < 0.4         # a caller who works with context blocks
+    for step in range(rng.randint(2, 7) if not big else rng.randint(1, 3)):
         r = rng.random()
         xy = rng.choice(chips)
         app = rng.choice(apps)
-        if r < 0.45:
+        if kept is not None and (step < 2 or rng.random() < 0.3) and not big:
+            how = change_kept() if step else "first"
+            ses.ops.append("kept list: %s" % how)
+            if rng.random() < 0.7:
+                ses.load_entries(xy, app, kept, via_context=rng.choice((False, False, True)))
+            else:
+                some = rng.sample(chips, rng.randint(1, len(chips)))
+                ses.load_tables(OrderedDict((c, kept) for c in some), app)     # one list for several chips
+        elif r < 0.45:
             n = min(size_for(xy), 1100)
-            entries = single_bit_table(rng) if (n == 24 and rng.random() < 0.8) else rand_entries(rng, n)
-            ses.load_entries(xy, app, entries, via_context=rng.random() < 0.2)
+            entries = single_bit_table(rng) if (n == 24 and rng.random() < 0.8) else with_repeats(rand_entries(rng, n))
+            if rng.random() < 0.15:
+                entries = tuple(entries)
+            ses.load_entries(xy, app, entries,
+                             via_context=rng.choice((True, "override", "nested", False)) if ctx_user else rng.random() < 0.1)
         elif r < 0.7:
             some = rng.sample(chips, rng.randint(1, len(chips)))
-            tables = OrderedDict((c, rand_entries(rng, min(size_for(c), 300) if not big else size_for(c))) for c in some)
-            ses.load_tables(tables, app)
+            pairs = [(c, with_repeats(rand_entries(rng, min(size_for(c), 300) if not big else size_for(c)))) for c in some]
+            kind = rng.choice(("ordered", "ordered", "dict", "defaultdict"))
+            if kind == "dict":
+                tables = dict(pairs)
+            elif kind == "defaultdict":                   # what routing_tree_to_tables returns
+                tables = defaultdict(list)
+                tables.update(pairs)
+            else:
+                tables = OrderedDict(pairs)
+            ses.load_tables(tables, app, via_context=rng.choice((True, True, "keyword", False)) if ctx_user else False)
         elif r < 0.82:
-            ses.get(xy)
+            ses.get(xy, via_context=ctx_user and rng.random() < 0.6)
         else:
-            ses.clear(xy, rng.choice(apps + [17, 200]))
+            ses.clear(xy, rng.choice(apps + [17, 200]), via_context=ctx_user and rng.random() < 0.6)
         for c in chips:       # bookkeeping for the generator only: how much is free now (sizes near the limit)
             free[c] = ses.sim.chips[c].largest_free_rtr_block()
     if rng.random() < 0.4:
@@ -615,6 +746,28 @@ def fixed_sessions():
     s.load_tables(OrderedDict([((0, 1), rand_entries(rng, 5)), ((0, 0), rand_entries(rng, 1))]), 100)
     for c in ((0, 0), (1, 0), (1, 1), (0, 1)):
         s.get(c)
+    out.append(s.finish())
+    s = Session(2, 1, buffer_size=64, label="fixed: one list kept by the caller, changed in place between loads; one list "
+                "for two chips; context blocks; a tuple; repeated entries")
+    s.start()
+    kept = rand_entries(rng, 5)
+    s.load_entries((0, 0), 40, kept)
+    kept[2] = RoutingTableEntry({Routes.core(4), Routes.west}, 0x12340000, 0xffff0000)
+    s.load_entries((0, 0), 41, kept)
+    kept.append(RoutingTableEntry({Routes.north_east}, 0xfeed0000, 0xffff0000))
+    s.load_entries((1, 0), 40, kept, via_context=True)
+    kept.reverse()
+    s.load_tables(OrderedDict([((1, 0), kept), ((0, 0), kept)]), 42, via_context=True)
+    dup = RoutingTableEntry({Routes.core(1)}, 0xaaaa0000, 0xffff0000)
+    s.load_entries((1, 0), 43, (dup, dup, RoutingTableEntry({Routes.core(2)}, 0xaaaa0000, 0xffff0000), dup),
+                   via_context="override")
+    s.load_entries((0, 0), 43, rand_entries(rng, 3), via_context="nested")
+    s.get((1, 0), via_context=True)
+    s.clear((1, 0), 40, via_context=True)
+    s.get((1, 0))
+    t = defaultdict(list)
+    t[(0, 0)] = rand_entries(rng, 2)
+    s.load_tables(t, 44, via_context="keyword")
     out.append(s.finish())
     s = Session(1, 1, policy="zero_ok", label="fixed: empty table on a machine that grants empty blocks")
     s.start()
@@ -669,6 +822,10 @@ def run(chk):
             if not raised:
                 chk.count("conversions with trees sharing key and mask that returned tables")
         chk.note_case((e[1], e[2]), nontrivial=len(e[1]) > 1 or len(e[1][0]["nodes"]) > 1)
+        if " again(" in t["label"]:
+            chk.count("table conversions of the caller's objects again after an in-place change")
+        if "keys=ghost" in t["label"]:
+            chk.count("table conversions whose keys name nets without a tree")
     # ---- (ii)
     straces = fixed_sessions()
     nses = chk.pick(120, 1000)
@@ -676,6 +833,11 @@ def run(chk):
         straces.append(gen_session(chk, rng, i, big=(i % 30 == 0)))
     alone = [0] * 24
     for t in straces:
+        for op in t["ops"]:
+            if op.startswith("kept list") and not op.endswith("first"):
+                chk.count("loads of a list the caller kept and changed in place (%s)" % op.split(": ")[1])
+            elif "ctx=" in op and not op.endswith("ctx=False"):
+                chk.count("calls with arguments from context blocks")
         for e in t["ev"]:
             if e[0] == "load":
                 n = sum(len(c[2]) for c in e[2])
@@ -699,7 +861,10 @@ def run(chk):
                 "feeders, strict super-/subsets of exits in both orders, near-miss keys, star with all 24 routes; random: "
                 "trees of 1-9 nodes on tori up to 8x8 with core / link / no-route leaves, a second tree that is a copy, a "
                 "feeder into a subtree, a copy with one exit more / less / replaced, or unrelated, sometimes a third, "
-                "arbitrary 32-bit keys and masks incl. key bits outside the mask, shuffled processing order) and %d sets of "
+                "arbitrary 32-bit keys and masks incl. key bits outside the mask, shuffled processing order; one RoutingTree "
+                "object under two nets, leaves repeating a route of their node, routes as dict / OrderedDict, a keys "
+                "dictionary in an order of its own that also names nets without a tree or gives [key, mask] lists; every "
+                "sixth set is converted again after the caller changed a tree / a key / the set of nets in place) and %d sets of "
                 "trees from the real router (random connected machines with faults, 1-6 nets, keys drawn from a small pool "
                 "or shared per source); non-trivial = more than one tree or node.  (ii) %d sessions of the real "
                 "MachineController against the simulated machine (1-6 chips, SCP buffer 16..256 bytes, first-fit / last-fit "
@@ -707,7 +872,10 @@ def run(chk):
                 "entries / completely full, 2-8 calls of load_routing_table_entries (also through the context manager), "
                 "load_routing_tables, get_routing_table_entries, clear_routing_table_entries; tables of 0..1024 entries "
                 "incl. exactly and just over the largest free block, each of the 24 route bits alone, empty / full / random "
-                "route sets, arbitrary keys and masks, application ids 0..255); non-trivial = a load of >= 1 entry or a "
+                "route sets, arbitrary keys and masks, application ids 0..255; a list the caller keeps, changes in place and "
+                "loads again, one list for several chips, tuples, an entry object / a key and mask repeated in a table, "
+                "tables as dict / OrderedDict / defaultdict, chip and application taken from (nested, overridden) context "
+                "blocks for all four calls); non-trivial = a load of >= 1 entry or a "
                 "read-back of a non-empty router; distinct = distinct (trees, keys) resp. (app, tables) resp. read-back"
                 % (nhand, len(ttraces) - nhand, len(straces)))
     chk.exhaustive = False
